@@ -329,22 +329,17 @@ example : ∃ s e, Monitor.Reach 999999999 0 s ∧ e ∈ s.flog := by
 /-! ## Thread -/
 
 /-- a finished thread's result never changes (thread ids are not reused) -/
-theorem Thr.finished_stable {s s' : Thr.St} {j u : Tid} {a : Thr.Act} {v : Nat}
-    (hv : s.status j = .finished v) (hs : Thr.step s u a = some s') : s'.status j = .finished v := by
+theorem Thr.finished_stable {val : Nat → Nat} {s s' : Thr.St} {j u : Tid} {a : Thr.Act} {v : Nat}
+    (hv : s.status j = .finished v) (hs : Thr.step val s u a = some s') : s'.status j = .finished v := by
   cases a with
   | begin_ =>
     simp only [Thr.step] at hs
-    split at hs
-    · rename_i hc; simp at hs; subst hs
-      have : j ≠ u := by intro e; subst e; simp [hv] at hc
-      simp [upd, this, hv]
-    · simp at hs
-  | exit v' =>
+    split at hs <;> simp at hs <;> subst hs <;> grind [upd]
+  | exit =>
     simp only [Thr.step] at hs
     split at hs
-    · rename_i hc; simp at hs; subst hs
-      have : j ≠ u := by intro e; subst e; simp [hv] at hc
-      simp [upd, this, hv]
+    · split at hs <;> simp at hs
+      subst hs; grind [upd]
     · simp at hs
   | api a =>
     cases a with
@@ -357,63 +352,141 @@ theorem Thr.finished_stable {s s' : Thr.St} {j u : Tid} {a : Thr.Act} {v : Nat}
     | run alt =>
       simp only [Thr.step] at hs
       cases hp : s.pc u <;> simp only [hp] at hs
-      · simp at hs
-      · rename_i k
-        (repeat' split at hs) <;> simp [Thr.done] at hs <;> subst hs
-        · rename_i hc
-          have : j ≠ k := by intro e; subst e; simp [hv] at hc
-          simp [upd, this, hv]
-        · exact hv
-      · rename_i k
-        split at hs
-        · simp at hs
-        · cases hst : s.status k <;> simp [hst, Thr.done] at hs
-          subst hs; exact hv
-      · rename_i k
-        split at hs
-        · simp at hs
-        · cases hst : s.status k <;> simp [hst, Thr.done] at hs
-          subst hs; exact hv
+      all_goals
+        try simp only [Thr.done] at hs
+        (repeat' split at hs) <;> simp at hs <;> (try subst hs) <;> grind [upd]
 
 /-- Thread::join returns the thread function's result after it has finished.
     ASSUMED (`pthread_join` of Posix.lean, not library content): the join is enabled only once the target has finished and
     yields the value its function returned; a finished thread's result never changes (`Thr.finished_stable`).
     LIBRARY content, over every reachable state (any schedule, any number of threads and Thread objects, pthread_create
-    failing up to `cfail` times): an attached Thread object (`thread != 0`) always names a thread that was really created
-    — the handle is set exactly by a successful create and cleared only after the join —, `join()` hands the joined value
-    through unchanged, detaches the object, and returns to the caller.  Which FUNCTION the thread runs (the functor of the
-    member-function overload, Thread.hpp) is not in the model; that part is covered by the correspondence run only
-    (it found the defect repaired by fixes/sync/0002). -/
-theorem join_returns_result {cfail : Nat} {s : Thr.St} (h : Thr.Reach cfail s) (t j : Tid) (hpc : s.pc t = .join j) :
+    failing up to `cfail` times, both overloads of start): an attached Thread object (`thread != 0`) always names a thread
+    that was really created; the value handed through by `join()` is `val k` for the body `k` that the successful
+    `start()` of this object handed over (`started j`; for the member-function overload: the functor that was stored in the
+    object when the thread was created — it cannot have been overwritten since, `thread_start_refused_while_attached`);
+    `join()` detaches the object and returns to the caller. -/
+theorem join_returns_result {val : Nat → Nat} {cfail : Nat} {s : Thr.St} (h : Thr.Reach val cfail s) (t j : Tid)
+    (hpc : s.pc t = .join j) :
     (s.handle j = true → s.status j ≠ .none) ∧
-    (∀ alt s', Thr.step s t (.api (.run alt)) = some s' →
-       ∃ v, s.status j = .finished v ∧ s'.ret t = some (.num v) ∧ s'.pc t = .idle ∧ s'.handle j = false ∧
-         Thr.Reach cfail s') ∧
-    (∀ v, s.status j = .finished v → ∃ s', Thr.step s t (.api (.run 0)) = some s') := by
-  refine ⟨Thr.inv_reach h j, ?_, ?_⟩
+    (∀ alt s', Thr.step val s t (.api (.run alt)) = some s' →
+       ∃ k, s.started j = some k ∧ s.status j = .finished (val k) ∧ s'.ret t = some (.num (val k)) ∧ s'.pc t = .idle ∧
+         s'.handle j = false ∧ Thr.Reach val cfail s') ∧
+    (∀ v, s.status j = .finished v → ∃ s', Thr.step val s t (.api (.run 0)) = some s') := by
+  have hi := Thr.inv_reach h
+  refine ⟨hi.attached j, ?_, ?_⟩
   · intro alt s' hs
-    have hr : Thr.Reach cfail s' := .step h hs
+    have hr : Thr.Reach val cfail s' := .step h hs
     simp only [Thr.step, hpc] at hs
     split at hs
     · simp at hs
     · cases hst : s.status j <;> simp [hst] at hs
       subst hs
-      exact ⟨_, rfl, by simp [Thr.done], by simp [Thr.done], by simp [Thr.done], hr⟩
+      rename_i v
+      obtain ⟨k, hk, rfl⟩ := hi.finished j v hst
+      exact ⟨k, hk, rfl, by simp [Thr.done], by simp [Thr.done], by simp [Thr.done], hr⟩
   · intro v hv
-    cases hs : Thr.step s t (.api (.run 0)) with
+    cases hs : Thr.step val s t (.api (.run 0)) with
     | none => simp [Thr.step, hpc, hv] at hs
     | some s' => exact ⟨_, rfl⟩
+
+/-- … exactly once: the join has cleared the handle; from then on (any later state, any schedule) the object stays
+    detached, and a further `join()` returns 0 at once without a `pthread_join` and changes nothing. -/
+theorem thread_join_exactly_once {val : Nat → Nat} {cfail : Nat} {s : Thr.St} (h : Thr.Reach val cfail s) (j : Tid) (v : Nat)
+    (hf : s.status j = .finished v) (hd : s.handle j = false) :
+    (∀ u a s', Thr.step val s u a = some s' → s'.handle j = false ∧ s'.status j = .finished v) ∧
+    (∀ t s', Thr.step val s t (.api (.call (.join j))) = some s' →
+       s'.ret t = some (.num 0) ∧ s'.pc t = .idle ∧ s'.handle = s.handle ∧ s'.status = s.status ∧ s'.func = s.func) := by
+  refine ⟨?_, ?_⟩
+  · intro u a s' hs
+    refine ⟨?_, Thr.finished_stable hf hs⟩
+    cases a with
+    | begin_ =>
+      simp only [Thr.step] at hs
+      split at hs <;> simp at hs <;> subst hs <;> exact hd
+    | exit =>
+      simp only [Thr.step] at hs
+      split at hs
+      · split at hs <;> simp at hs
+        subst hs; exact hd
+      · simp at hs
+    | api a =>
+      cases a with
+      | tick q => simp [Thr.step] at hs; subst hs; exact hd
+      | call op =>
+        simp only [Thr.step] at hs
+        split at hs
+        · cases op <;> (simp only [] at hs; split at hs <;> simp [Thr.done] at hs <;> subst hs <;> exact hd)
+        · simp at hs
+      | run alt =>
+        simp only [Thr.step] at hs
+        cases hp : s.pc u <;> simp only [hp] at hs
+        all_goals
+          try simp only [Thr.done] at hs
+          (repeat' split at hs) <;> simp at hs <;> (try subst hs) <;> grind [upd]
+  · intro t s' hs
+    simp only [Thr.step] at hs
+    split at hs
+    · simp [hd, Thr.done] at hs; subst hs
+      exact ⟨by simp, by simp, rfl, rfl, rfl⟩
+    · simp at hs
+
+/-- A second `start()` — either overload — on a Thread object that still holds a thread is refused and changes nothing:
+    it returns false at once, and handle, thread table and in particular the STORED FUNCTOR of the member-function
+    overload stay as they are (the running thread may not have read it yet; this is the order repaired by
+    fixes/sync/0002).  Any state. -/
+theorem thread_start_refused_while_attached {val : Nat → Nat} {s s' : Thr.St} (t j : Tid) (k : Nat) (ha : s.handle j = true)
+    (hs : Thr.step val s t (.api (.call (.start j k))) = some s' ∨ Thr.step val s t (.api (.call (.mstart j k))) = some s') :
+    s'.ret t = some (.bool false) ∧ s'.pc t = .idle ∧ s'.func = s.func ∧ s'.handle = s.handle ∧ s'.status = s.status ∧
+      s'.started = s.started := by
+  rcases hs with hs | hs <;>
+  · simp only [Thr.step] at hs
+    split at hs
+    · simp [ha, Thr.done] at hs; subst hs
+      exact ⟨by simp, by simp, rfl, rfl, rfl, rfl⟩
+    · simp at hs
+
+/-- The thread of a Thread object executes the function its successful `start()` handed over, for both overloads, in
+    every reachable state: a running thread `j` executes body `started j`; a thread created by the member-function
+    overload that has not begun yet will read `func j`, and that still is `started j`.  And what `started j` is: a
+    successful pthread_create records the body of `start(proc, param)` resp. the functor stored in the object; with no
+    other thread interfering between the two steps of `start(obj, &X::f)` that is the `k` of the call. -/
+theorem thread_runs_started_function {val : Nat → Nat} {cfail : Nat} {s : Thr.St} (h : Thr.Reach val cfail s) (j : Tid) :
+    (∀ k, s.status j = .running k → s.started j = some k) ∧
+    (s.status j = .created none → s.started j = some (s.func j) ∧ s.handle j = true) ∧
+    (∀ k, s.status j = .created (some k) → s.started j = some k ∧ s.handle j = true) ∧
+    (∀ t b s', s.pc t = .create j b → Thr.step val s t (.api (.run 0)) = some s' →
+       s'.started j = some (b.getD (s.func j)) ∧ s'.ret t = some (.bool true) ∧ s'.handle j = true ∧ s'.status j = .created b) ∧
+    (∀ t k s1 s2, Thr.step val s t (.api (.call (.mstart j k))) = some s1 → s.handle j = false →
+       Thr.step val s1 t (.api (.run 0)) = some s2 → s2.started j = some k ∧ s2.ret t = some (.bool true)) := by
+  have hi := Thr.inv_reach h
+  refine ⟨hi.running j, fun hc => ⟨hi.viaFunc j hc, hi.createdAttached j _ hc⟩,
+    fun k hc => ⟨hi.direct j k hc, hi.createdAttached j _ hc⟩, ?_, ?_⟩
+  · intro t b s' hpc hs
+    simp only [Thr.step, hpc] at hs
+    simp at hs
+    obtain ⟨hn, rfl⟩ := hs
+    exact ⟨by simp [Thr.done], by simp [Thr.done], by simp [Thr.done], by simp [Thr.done]⟩
+  · intro t k s1 s2 h1 hd h2
+    simp only [Thr.step] at h1
+    split at h1
+    · simp [hd] at h1; subst h1
+      simp only [Thr.step, upd_same] at h2
+      simp at h2
+      obtain ⟨hn, rfl⟩ := h2
+      exact ⟨by simp [Thr.done], by simp [Thr.done]⟩
+    · simp at h1
 
 /-- Thread::~Thread() of an object that still holds a thread waits for that thread to finish (the join inside the
     destructor; the waiting itself is the ASSUMED pthread_join), and Thread::start reports a failing pthread_create as
     `false` without attaching a thread (library content: handle, thread table unchanged).  Reachable states. -/
-theorem thread_dtor_waits_and_failed_start_is_clean {cfail : Nat} {s : Thr.St} (h : Thr.Reach cfail s) (t j : Tid) :
+theorem thread_dtor_waits_and_failed_start_is_clean {val : Nat → Nat} {cfail : Nat} {s : Thr.St} (h : Thr.Reach val cfail s)
+    (t j : Tid) :
     (s.handle j = true → s.status j ≠ .none) ∧
-    (s.pc t = .dtor j → ∀ alt s', Thr.step s t (.api (.run alt)) = some s' →
+    (s.pc t = .dtor j → ∀ alt s', Thr.step val s t (.api (.run alt)) = some s' →
        (∃ v, s.status j = .finished v) ∧ s'.pc t = .idle ∧ s'.handle j = false) ∧
-    (s.pc t = .create j → ∀ s', Thr.step s t (.api (.run 1)) = some s' →
+    (∀ b, s.pc t = .create j b → ∀ s', Thr.step val s t (.api (.run 1)) = some s' →
        s'.ret t = some (.bool false) ∧ s'.handle = s.handle ∧ s'.status = s.status ∧ s'.cfail + 1 = s.cfail) := by
-  refine ⟨Thr.inv_reach h j, ?_, ?_⟩
+  refine ⟨(Thr.inv_reach h).attached j, ?_, ?_⟩
   · intro hpc alt s' hs
     simp only [Thr.step, hpc] at hs
     split at hs
@@ -421,18 +494,38 @@ theorem thread_dtor_waits_and_failed_start_is_clean {cfail : Nat} {s : Thr.St} (
     · cases hst : s.status j <;> simp [hst] at hs
       subst hs
       exact ⟨⟨_, rfl⟩, by simp [Thr.done], by simp [Thr.done]⟩
-  · intro hpc s' hs
+  · intro b hpc s' hs
     simp only [Thr.step, hpc] at hs
     simp at hs
     obtain ⟨hc, rfl⟩ := hs
     refine ⟨by simp [Thr.done], rfl, rfl, ?_⟩
     simp [Thr.done]; omega
 
-example : ∃ s : Thr.St, s.pc 0 = .join 1 ∧ s.status 1 = .finished 7 :=
-  ⟨{ Thr.init with pc := upd Thr.init.pc 0 (.join 1), status := upd Thr.init.status 1 (.finished 7) }, rfl, rfl⟩
+/-- helper for the non-vacuity examples -/
+def Thr.runActs (val : Nat → Nat) (s : Thr.St) : List (Tid × Thr.Act) → Option Thr.St
+  | [] => some s
+  | (t, a) :: l => (Thr.step val s t a).bind fun s' => Thr.runActs val s' l
 
-example : ∃ s s' : Thr.St, s.pc 0 = .create 1 ∧ Thr.step s 0 (.api (.run 1)) = some s' :=
-  ⟨{ Thr.init 1 with pc := upd (Thr.init 1).pc 0 (.create 1) }, _, rfl, rfl⟩
+theorem Thr.reach_runActs {val : Nat → Nat} {cfail : Nat} {s s' : Thr.St} (l : List (Tid × Thr.Act))
+    (h : Thr.Reach val cfail s) (hr : Thr.runActs val s l = some s') : Thr.Reach val cfail s' := by
+  induction l generalizing s with
+  | nil => simp [Thr.runActs] at hr; subst hr; exact h
+  | cons x l ih =>
+    obtain ⟨t, a⟩ := x
+    simp only [Thr.runActs] at hr
+    cases hs : Thr.step val s t a with
+    | none => simp [hs] at hr
+    | some s1 => simp [hs] at hr; exact ih (.step h hs) hr
+
+/-- non-vacuity: the main thread starts object 1 through the member overload with body 5, a second member start with
+    body 9 is refused, the thread runs body 5, finishes with `val 5`, and the main thread sits in `join 1` -/
+example : ∃ s, Thr.Reach (fun k => k + 100) 0 s ∧ s.pc 0 = .join 1 ∧ s.status 1 = .finished 105 ∧ s.func 1 = 5 ∧
+    s.started 1 = some 5 ∧ s.handle 1 = true := by
+  refine ⟨_, Thr.reach_runActs [(0, .api (.call (.mstart 1 5))), (0, .api (.run 0)), (0, .api (.call (.mstart 1 9))),
+    (1, .begin_), (1, .exit), (0, .api (.call (.join 1)))] .init rfl, ?_, ?_, ?_, ?_, ?_⟩ <;> rfl
+
+example : ∃ s s' : Thr.St, s.pc 0 = .create 1 none ∧ Thr.step id s 0 (.api (.run 1)) = some s' :=
+  ⟨{ Thr.init 1 with pc := upd (Thr.init 1).pc 0 (.create 1 none) }, _, rfl, rfl⟩
 
 /-! ## liveness under fairness (infinite runs, Fair.lean)
 
